@@ -10,7 +10,7 @@ import (
 )
 
 func main() {
-	rtgen.Main("C07", "Router.check_c07",
+	rtgen.MainX("C07", "Router.check_c07",
 		"valid-by-construction packets at every position kind (first hop, transit, cross-over, peering out/in, "+
 			"inbound; both construction directions; external, sibling, internal ingress; egress over own external "+
 			"links and sibling links), random traffic class / flow id / hosts (IPv4, IPv6, service) / HBH and E2E "+
